@@ -72,6 +72,18 @@ def run(tier):
             docs.append(b"#{" + b" ".join(els) + b"}")
             docs.append(b"#{" + b" ".join(els + [b"(7 7)"]) + b"}")
             docs.append(b"{" + b" ".join(b"{:k %d} %d" % (i, i) for i in range(n)) + b"}")
+        planted = {}
+        for n in (14, 17, 40, 300, 999, 1100):
+            fl = b" ".join(b"%d" % i for i in range(n))
+            for x, y in ((b"[:a/bc]", b"[:ab/c]"), (b"{1 2, 3 4}", b"{1 4, 3 2}"), (b"(a/bc 1)", b"(ab/c 1)")):
+                docs.append(b"#{" + x + b" " + y + b" " + fl + b" " + x + b"}")
+                docs.append(b"#{" + x + b" " + fl + b" " + y + b" " + x + b"}")
+                docs.append(b"#{" + y + b" " + x + b" " + fl + b" " + y + b"}")
+                docs.append(b"{" + x + b" 1 " + y + b" 2 " + b" ".join(b"%d %d" % (i, i) for i in range(n)) + b" " + x + b" 3}")
+                for dd in docs[-4:]:
+                    planted[dd] = True
+                docs.append(b"#{" + x + b" " + y + b" " + fl + b"}")
+                planted[docs[-1]] = False
         docs = [d for d in docs if d]
         opts = [rng.choice([0, 0, 1, 8, 9, 10, 12]) for _ in docs]
         lines = ["M %d %s" % (o, C.hexs(d)) for o, d in zip(opts, docs)]
@@ -86,6 +98,17 @@ def run(tier):
                 found = True
                 rep.finding("crash/" + b, "build %s crashed (exit %s)" % (b, rc), {"kind": "line", "config": cfg, "mode": b, "line": lines[idx], "stderr": err[-2000:]})
         ref = outs["o2"]
+        # equal composites among hash-colliding ones: the verdict must not depend on where the arena put them
+        for b in BUILDS:
+            for i, o in enumerate(outs[b]):
+                want = planted.get(docs[i])
+                if o is None or want is None:
+                    continue
+                if o.startswith("err DUPLICATE") != want:
+                    found = True
+                    rep.finding("duplicate-verdict", "build %s: a %s was %s" % (b, "literal with an equal pair" if want else "duplicate-free literal", o[:60]),
+                                {"kind": "line", "config": cfg, "mode": b, "line": lines[i], "observed": o[:300]})
+                    break
         for b in BUILDS:
             for i, o in enumerate(outs[b]):
                 if o is None or ref[i] is None:
@@ -135,13 +158,20 @@ def run(tier):
                     break
         # (c) threads
         tdocs = [d for d in docs if len(d) < 4000][:300] + docs[-12:]
+        # documents whose tags are registered in the shared registry, several of them in one bucket of its table
+        # (my/id + inst, failq + ext): any write to the registry by a reader shows up as a race or a changed result
+        for _ in range(120):
+            v = G.gen_value(rng, cfg, depth=rng.choice([1, 2, 3]), width=4, tags=("id", "my/id", "inst", "ext", "my/id", "inst", "uuid", "failq"))
+            tdocs.append(G.render_doc(rng, v, cfg, rich=False))
+        tdocs.append(b"[" + b" ".join(b"#my/id %d #inst %d #ext %d" % (i, i, i) for i in range(40)) + b"]")
         tl = []
         for nt in (2, 4, 8, 16):
             for opt in (0, 8):
-                part = rng.sample(tdocs, min(len(tdocs), 60))
+                part = rng.sample(tdocs[:-121], min(len(tdocs) - 121, 40)) + rng.sample(tdocs[-121:], 25) + tdocs[-1:]
                 tl.append("T %d %d %d %s" % (nt, 3 if tier == "quick" else 10, opt, " ".join(C.hexs(d) for d in part)))
         for b in ("tsan", "o2"):
-            o, crashes = K.run_impl(cfg, tl, mode=b, nchunks=4, env={"TSAN_OPTIONS": "halt_on_error=1 second_deadlock_stack=1"})
+            # CPU limit: a reader that never returns (e.g. a corrupted shared structure) ends as a crash, not as a stuck check
+            o, crashes = K.run_impl(cfg, tl, mode=b, nchunks=4, cpu_s=600, env={"TSAN_OPTIONS": "halt_on_error=1 second_deadlock_stack=1"})
             rep.count("thread-runs/%s/%s" % (b, cfg), len(tl))
             for idx, rc, err in crashes:
                 found = True
